@@ -54,3 +54,9 @@ Proof. vm_compute. reflexivity. Qed.
 Definition global_classes : list string := map (fun h => snd h) global_objects.
 Lemma global_objects_are : global_classes = ["NonCovalentlyCoupledGroups"; "Protonate"; "squared_property"; "squared_property"; "squared_property"; "squared_property"].
 Proof. vm_compute. reflexivity. Qed.
+
+(* no mutable default argument, cache decorator, `global` statement or class attribute stored through the class anywhere in propka/*.py;
+   the only module-level container mutated inside a function is the version-handler registry of the vendored _version.py (import time) *)
+Lemma no_hidden_state : hidden_state_sites =
+  [("container-mutation", "_version.py", "decorate", "HANDLERS"); ("container-mutation", "_version.py", "register_vcs_handler", "HANDLERS")].
+Proof. vm_compute. reflexivity. Qed.
